@@ -55,12 +55,11 @@ pub fn roots_of(part: &mut Part, seen: &Seen, kind: K, m: &Bits, provs: &[Prov])
                 let bad = if counts {
                     check_vector(part, seen, Level::Full, &vo.v, m, &mk, "")
                 } else {
-                    let mut tmp = Part::new();
-                    let private = Seen::new();
-                    let bad = check_vector(&mut tmp, &private, Level::Lite, &vo.v, m, &mk, "");
-                    for s in tmp.states {
-                        part.states.insert(s);
-                    }
+                    // other properties: a root must show the requested bits; whether it carries hidden
+                    // state is C03's question - it is kept, and the property's own oracle decides
+                    // what it observes on it
+                    part.state(&vo.v.raw());
+                    let bad = &vo.v.bits() != m;
                     if bad {
                         part.count("roots_rejected_by_validation", 1);
                     }
